@@ -240,12 +240,47 @@ def pred_c02(line, st):
 
 
 # ---------------------------------------------------------------------------- C08
+def hexint(z):
+    return ("-" if z < 0 else "") + format(abs(z), "x")
+
+
+def shash_query(args):
+    return "".join(hexint(a) + "|" for a in args)
+
+
+def oracle_of(logtok):
+    ans = {}
+    for e in plist(logtok):
+        hq, a = e.split(":")
+        ans[bytes.fromhex(hq).decode("latin1") if hq != "-" else ""] = int(a)
+    return ans
+
+
+def nizk_should_accept(p, q, g, key, c, r, H, qr):
+    """the key-share verification equation, evaluated independently; None = oracle answer missing"""
+    if not (0 < key < p):
+        return False
+    if qr:
+        if pow(key, q, p) != 1:   # quadratic residues = subgroup of order q for p = 2q+1
+            return False
+    elif pow(key, q, p) != 1:
+        return False
+    if max(1, abs(c).bit_length()) > 256 or abs(r) >= q:
+        return False
+    t = pow(g, r, p) * pow(key, c, p) % p
+    qstr = shash_query([p, q, g, key, t])
+    if qstr not in H:
+        return None
+    return H[qstr] == c
+
+
 def pred_c08(line, st):
     op, a, r = toks(line)
     if op != "vtmf.key":
         return None
-    p, q, g, x0 = int(a[0]), int(a[1]), int(a[2]), int(a[3])
-    ops = plist(a[4])
+    qr = a[0] == "qr"
+    p, q, g, x0 = int(a[1]), int(a[2]), int(a[3]), int(a[4])
+    ops = plist(a[5]); H = oracle_of(a[6])
     if is_err(r):
         return "key history failed"
     h, n, rets = int(r[0]), int(r[1]), ilist(r[2])
@@ -253,24 +288,31 @@ def pred_c08(line, st):
     stored = {}
     for o, ret in zip(ops, rets):
         f = o.split(":")
-        if f[0] == "a":
-            fp, key = int(f[1]), int(f[2])
-            if ret != 1:
-                return "bookkeeping: accepted op with return 0"
-            if fp in stored:
-                st["dups"] = st.get("dups", 0) + 1   # duplicate corner: multiplied again, stored once
-            eh = eh * key % p
-            stored[fp] = key
-        elif f[0] == "x":
+        if f[0] == "u":
+            key, c, rr = int(f[1]), int(f[2]), int(f[3])
+            want = nizk_should_accept(p, q, g, key, c, rr, H, qr)
+            if want is None:
+                # the verifier never asked the oracle about the right commitment: only fine for a refusal
+                if ret == 1:
+                    return "contribution accepted without the hash of its recomputed commitment being queried"
+                want = False
+            if want and ret != 1:
+                return "valid contribution refused"
+            if not want and ret == 1:
+                return "contribution with a wrong or forged proof of knowledge accepted (key %d...)" % (key % 10 ** 8)
+            if ret == 1:
+                eh = eh * key % p
+                stored[key] = key
+        elif f[0] == "m":
             if ret != 0:
-                return "refused contribution returned true"
+                return "contribution without proof accepted"
         elif f[0] == "r":
-            fp = int(f[1])
-            if fp in stored:
+            key = int(f[1])
+            if key in stored:
                 if ret != 1:
                     return "removal of a stored key refused"
-                eh = eh * inv_mod(stored[fp], p) % p
-                del stored[fp]
+                eh = eh * inv_mod(key, p) % p
+                del stored[key]
             elif ret != 0:
                 return "removal of an unknown key returned true"
     if h != eh:
@@ -514,4 +556,220 @@ PROPS["C05"] = dict(
     level_note=LEVEL_NOTE + " Collision resistance is an explicit disjunct.",
     trusted=ZK_TRUST,
     assumptions=["partial: binding theorems exist for Chaum-Pedersen and the key NIZK (which all VTMF card proofs reduce to); OR proof, stack proofs, Groth/VRHE, Rabin signatures: mutation correspondence only so far"],
+)
+
+
+# ---------------------------------------------------------------------------- C06
+def is_prime(n):
+    if n < 2:
+        return False
+    small = [2, 3, 5, 7, 11, 13, 17, 19, 23, 29, 31, 37]
+    for sp in small:
+        if n % sp == 0:
+            return n == sp
+    d, s = n - 1, 0
+    while d % 2 == 0:
+        d //= 2; s += 1
+    import random
+    rnd = random.Random(n & 0xffffffff)
+    bases = small + [rnd.randrange(2, n - 1) for _ in range(20)]
+    for a in bases:
+        x = pow(a, d, n)
+        if x in (1, n - 1):
+            continue
+        for _ in range(s - 1):
+            x = x * x % n
+            if x == n - 1:
+                break
+        else:
+            return False
+    return True
+
+
+def s62(z):
+    digs = "0123456789ABCDEFGHIJKLMNOPQRSTUVWXYZabcdefghijklmnopqrstuvwxyz"
+    if z == 0:
+        return "0"
+    n, out = abs(z), ""
+    while n:
+        out = digs[n % 62] + out; n //= 62
+    return ("-" if z < 0 else "") + out
+
+
+def ggen_ref(p, q, k, log):
+    """first accepted candidate of the verifiable generator derivation, hash answers from the log"""
+    ans = {}
+    for e in plist(log):
+        hq, a = e.split(":")
+        ans[bytes.fromhex(hq).decode("latin1")] = int(a)
+    U = "LibTMCG|%s|%s|ggen|" % (s62(p), s62(q))
+    for _ in range(len(ans) + 1):
+        if U not in ans:
+            return None
+        g2 = pow(ans[U], k, p)
+        U += s62(g2) + "|"
+        if g2 not in (0, 1, p - 1) and pow(g2, q, p) == 1:
+            return g2
+    return None
+
+
+def gen_ok(x, p, q):
+    return 1 < x < p - 1 and pow(x, q, p) == 1
+
+
+def group_spec(cls, fs, gsz, can, es, p, q, k, g, h, gs, log):
+    """True/False = what a well-formedness specification says, None = do not judge"""
+    if cls == "QR":
+        if p.bit_length() < fs or max(1, abs(q).bit_length()) < gsz or p != 2 * q + 1:
+            return False
+        if not (is_prime(p) and is_prime(q)) or p % 8 != 7 or not (1 < g < p - 1):
+            return False
+        if pow(g, q, p) != 1 or p.bit_length() < es:
+            return False
+        return g == pow(2, 2 ** (p.bit_length() - es), p)
+    if q <= 0 or p <= 2:
+        return False
+    kk = k if cls in ("D", "P", "PT") else (p - 1) // q
+    if p.bit_length() < fs or q.bit_length() < gsz or q * kk + 1 != p:
+        return False
+    if not (is_prime(p) and is_prime(q)) or math.gcd(q, kk) != 1:
+        return False
+    need_can = (cls in ("D", "R") and can) or cls == "PVSS"
+    if cls in ("D", "NP"):
+        ok = gen_ok(g, p, q)
+    elif cls == "P":
+        ok = gen_ok(h, p, q) and all(gen_ok(x, p, q) and x != h for x in gs) and len(set(gs)) == len(gs)
+    else:
+        ok = gen_ok(g, p, q) and gen_ok(h, p, q) and g != h
+    if not ok:
+        return False
+    if need_can:
+        c = ggen_ref(p, q, kk, log)
+        if c is None:
+            return None
+        return c == g
+    return True
+
+
+def pred_c06(line, st):
+    op, a, r = toks(line)
+    if op == "grp.check":
+        cls, fs, gsz, can, es = a[0], int(a[1]), int(a[2]), a[3] == "1", int(a[4])
+        p, q, k, g, h = (int(x) for x in a[5:10])
+        gs = ilist(a[10]); log = a[13]
+        if is_err(r):
+            return "CheckGroup did not return (%s)" % r[0]
+        want = group_spec(cls, fs, gsz, can, es, p, q, k, g, h, gs, log)
+        got = r[0] == "1"
+        t = tag_of(a)
+        if t.startswith("valid") and not got:
+            return "a parameter set generated like the library's own is refused (class %s)" % cls
+        if want is None:
+            return None
+        if got and not want:
+            return "ill-formed parameter set accepted (class %s, %s)" % (cls, t)
+        if want and not got:
+            return "well-formed parameter set refused (class %s, %s)" % (cls, t)
+        return None
+    if op == "grp.elem":
+        qr, p, q, x = a[0] == "1", int(a[1]), int(a[2]), int(a[3])
+        want = 0 < x < p and pow(x, q, p) == 1
+        if (r[0] == "1") != want:
+            return "CheckElement wrong for %d mod %d" % (x, p)
+    return None
+
+
+PROPS["C06"] = dict(
+    module="TmcgProps.C06",
+    areas=[("groups", {"quick": 160, "thorough": 4000}, [], "san")],
+    obligations=[("Tmcg.C06.checkGroup_D_iff", "full"), ("Tmcg.C06.checkGroup_D_canonical_iff", "full"),
+                 ("Tmcg.C06.checkGroup_G_iff", "full"), ("Tmcg.C06.checkGroup_R_canonical_iff", "full"),
+                 ("Tmcg.C06.checkGroup_NP_iff", "full"), ("Tmcg.C06.checkGroup_PT_iff", "full"),
+                 ("Tmcg.C06.checkGroup_P_iff", "full"), ("Tmcg.C06.checkGroup_QR_iff", "full"),
+                 ("Tmcg.C06.checkGroup_D_sound", "full"), ("Tmcg.C06.checkElement_iff", "full"),
+                 ("Tmcg.C06.checkElement_eq_sigma", "full")],
+    predicate=pred_c06,
+    level_text="Lean 4 theorems: each of the eight families of CheckGroup copies (17 classes) accepts exactly its specification (sizes, p = kq+1 resp. 2q+1 and 7 mod 8, primality oracle, coprime cofactor, generators in range of order dividing q, distinctness, canonical generator = first candidate of the verifiable derivation); "
+               "accepted class-D sets are well-formed Schnorr groups when the oracle is right; CheckElement decides subgroup membership. Correspondence: all 17 real classes on valid sets and 30 kinds of single-field corruption, verdicts and hash queries of the canonical derivation compared with the model.",
+    level_note=LEVEL_NOTE + " mpz_probab_prime_p is an oracle (its answers are taken from the run; probable prime = prime is assumed).",
+    assumptions=["probable-prime test = primality", "the prime generators (lprime, sprime2g, ...) themselves are not modelled yet: 'accepts every set the library generates' is checked on sets generated by the harness to the same specification and on library-generated canonical generators"],
+)
+
+
+# ---------------------------------------------------------------------------- C11
+def pred_c11(line, st):
+    op, a, r = toks(line)
+    if op == "io.roundtrip":
+        return None if r == ["1"] else "export/import round trip of a %s changed the object or its text" % a[0]
+    if op == "codec.str62":
+        st["last62"] = (r[0], int(a[0]))
+        return None
+    if op == "codec.parse62" and st.get("last62") and st["last62"][0] == a[0]:
+        v = st["last62"][1]
+        if r[0] == "none" or int(r[0]) != v:
+            return "integer %d does not survive the transport encoding" % v
+    return None
+
+
+PROPS["C06"]["areas"] = [("groups", {"quick": 160, "thorough": 4000}, [], "san")]
+PROPS["C11"] = dict(
+    module="TmcgProps.C11",
+    areas=[("io", {"quick": 200, "thorough": 6000}, [], "san")],
+    obligations=[("Tmcg.C11.int62_roundtrip", "full"), ("Tmcg.C11.card_import_export", "full"),
+                 ("Tmcg.C11.secret_import_export", "full"), ("Tmcg.C11.stack_import_export", "full"),
+                 ("Tmcg.C11.stack_import_refuses_size", "full"), ("Tmcg.C11.stacksecret_import_export", "full"),
+                 ("Tmcg.C11.stacksecret_import_is_bijection", "full"), ("Tmcg.C11.stack_export_import_export", "full")],
+    predicate=pred_c11,
+    level_text="Round-trip theorems in Lean 4 for the text transport encoding: base-62 integers (zero, negative, any length), discrete-log cards, card secrets, stacks of every admissible size and stack secrets with bijective index component: import(export x) = x, hence identical re-export. "
+               "The codec model (mpz_set_str/mpz_get_str in base 62, strtoul, the cm/gs/nx parse helpers, c_str truncation) is compared with the real importers on valid and mutated texts. "
+               "Partial: QR-encoded cards, keys, group parameter streams and persisted protocol states are not yet modelled.",
+    level_note=LEVEL_NOTE,
+    assumptions=["partial: types beyond the discrete-log card family are covered neither by theorems nor by the correspondence yet"],
+)
+
+
+# ---------------------------------------------------------------------------- C13
+def pred_c13(line, st):
+    op, a, r = toks(line)
+    if op == "prop.aio.partial-write":
+        return "a refused Send() nevertheless wrote bytes to the link"
+    if op != "prop.aio":
+        return None
+    auth, enc, chunked, cls, tamper, good = a[0] == "1", a[1] == "1", a[2] == "1", a[3], a[4], int(a[5])
+    sent, got = ilist(a[6]), ilist(r[0])
+    mode = "%s auth=%d enc=%d chunked=%d" % (cls, auth, enc, chunked)
+    st.setdefault("modes", set()).add((mode, tamper))
+    if tamper == "none":
+        if got != sent:
+            return "untampered stream (%s): delivered %d of %d messages or altered them" % (mode, len(got), len(sent))
+        return None
+    if not auth:
+        return None            # without authentication nothing is promised about tampering
+    # with authentication: nothing modified is delivered ...
+    if got != sent[:len(got)]:
+        # delivered sequence is not a prefix of the sent one
+        if chunked and all(x in sent for x in got) and tamper in ("remove", "reorder", "replay"):
+            return None        # chunked mode only promises integrity of each message, not of the sequence
+        return "tampered stream (%s, %s): delivered sequence is not a prefix of the sent sequence" % (mode, tamper)
+    # ... and every message completely in front of the first modified byte is still delivered
+    if len(got) < good:
+        return "tampered stream (%s, %s): message before the modification was lost" % (mode, tamper)
+    return None
+
+
+PROPS["C13"] = dict(
+    module="TmcgProps.C13",
+    areas=[("aio", {"quick": 96, "thorough": 3000}, [], "san")],
+    obligations=[("Tmcg.C13.recv_fragmentation_invariant_safety", "full"),
+                 ("Tmcg.C13.recv_fragmentation_invariant_delivery", "full"),
+                 ("Tmcg.C13.send_fits_buffer", "full"), ("Tmcg.C13.first_newline_is_delimiter", "full"),
+                 ("Tmcg.C13.bad_tag_never_delivered", "full"), ("Tmcg.C13.auth_delivers_only_tagged", "full")],
+    predicate=pred_c13,
+    level_text="Lean 4 theorems about the executable model of the channel's sender and receiver (stream modes): for every message list, every fragmentation of the byte stream and every interleaving of arrivals and Receive calls the delivered sequence is a prefix of the sent one with no failing call, "
+               "and it is complete after finitely many calls; accepted messages always fit the reassembly buffer; a bad tag is never delivered and stops the link; a delivered message carried a tag valid for the current sequence number (forgery reduction). "
+               "Correspondence: the real select-based objects on harness-owned pipes, every Send and every Receive(timeout 0) call recorded with the state before/after and the MAC/cipher oracle answers (interposed libgcrypt), fragmentation schedules and wire tampering; "
+               "the non-blocking class and the chunked modes are checked by the whole-scenario predicate only (delivered = sent; under tampering with authentication: a prefix).",
+    level_note=LEVEL_NOTE + " MAC unforgeability and cipher secrecy are assumed; real select()/EAGAIN timing is not modelled (the harness forces select time-outs to zero and never lets a write block).",
+    assumptions=["HMAC unforgeability, AES-CFB/CTR secrecy", "partial: chunked modes and aiounicast_nonblock are not modelled in Lean (scenario predicate on the real classes only)",
+                 "known finding F13: the IV of an encrypted link is not covered by the MAC"],
 )
